@@ -6,7 +6,7 @@ from props import b16dag as D
 
 ID = "C42"
 THEOREMS = ["C42_spec_reach", "C42_is_ancestor", "C42_merge_base", "C42_merge_base_spec", "C42_independents",
-            "C42_independents_spec", "C42_ff"]
+            "C42_independents_spec", "C42_ff", "C42_ff_shallow"]
 MODEL_FILES = ["CommitWalk.v", "MergeBase.v"]
 MODELLED = ("plumbing/object/merge_base.go: Commit.MergeBase, Commit.IsAncestor, ancestorsIndex, Independents, "
             "sortByCommitDateDesc (insertion-sort range of sort.Slice, <= 12 elements), remove, removeDuplicated, indexOf; "
